@@ -30,8 +30,18 @@ def _mk(name, props):
                     yield "offset-free-" + k, offset_free_m(c.fz("Unit", c.f(v, "unit"), "factors"))
         # same-base clause of C02: all prefixes involved share one base (or are the identity)
         pfx = [v for v in vals if v.cls == "Prefix"] + [VObj("Prefix", c.f(v, "prefix")) for v in vals if v.cls == "Unit"]
-        qs = [v for v in vals if v.cls == "Quantity"]
-        if qs:
+        lus = [v for v in vals if v.cls == "LogarithmicUnit"]
+        for lu in lus:
+            from .c_level import wf_lu, lref
+            yield "wf-lu", wf_lu(c, lu)
+            for q in [v for v in vals if v.cls == "Quantity"]:
+                from .c_quantity import mval, mkind
+                ref = lref(c, lu)
+                yield "positive-convertible", z3.And(mval(c, q) > 0, mkind(c, q) != K_DEC, pval_z(c, c.fz("Unit", c.f(q, "unit"), "prefix")) > 0,
+                                                     c.fz("Unit", c.f(q, "unit"), "dimension") == c.fz("Unit", c.f(ref, "unit"), "dimension"),
+                                                     z3.Not(noconv(c.fz("Unit", c.f(q, "unit"), "factors"), c.fz("Unit", c.f(ref, "unit"), "factors"))))
+        qs = [v for v in vals if v.cls == "Quantity"] if not lus else []
+        if qs or lus:
             pfx = []
             # the ordering lemmas are about quantities the library can compare: one dimension, convertible both ways
             for i in range(len(qs)):
@@ -50,7 +60,7 @@ def _mk(name, props):
 
     K = type("L_" + name, (Contract,), {
         "qual": "lemmas." + name, "props": props, "inv": ("I_D", "I_P", "I_U"),
-        "modifies": _UnitBin.modifies + ("new:Quantity",), "ret": ("none",), "requires": requires, "lemma": True})
+        "modifies": _UnitBin.modifies + ("new:Quantity", "new:Level"), "ret": ("none",), "requires": requires, "lemma": True})
     CONTRACTS["lemmas." + name] = K()
 
 
@@ -60,5 +70,6 @@ BOUNDED_ONLY = {"prefix_associative", "unit_associative", "unit_exponent_sum", "
 
 for _n in ast.parse(open(SRC).read()).body:
     if isinstance(_n, ast.FunctionDef) and _n.name not in BOUNDED_ONLY:
-        _p = ("C02", "C11") if _n.name.startswith(("prefix", "prefixed")) else ("C12",) if _n.name.startswith("qty_") else ("C02",)
+        _canary = {"canary_unit": ("C01", "C02", "C11"), "canary_prefix": ("C02", "C11"), "canary_dim": ("C02",), "canary_qty": ("C06", "C12"), "canary_level": ("C18",)}
+        _p = _canary[_n.name] if _n.name in _canary else ("C02", "C11") if _n.name.startswith(("prefix", "prefixed")) else ("C12",) if _n.name.startswith("qty_") else ("C18",) if _n.name.startswith("level_") else ("C02",)
         _mk(_n.name, _p)
